@@ -479,7 +479,10 @@ def group_oracle(ctx, group):
         if c is ref_c or c.kind in ("pcg", "prebi"): continue      # the AMG preconditioner depends on the partition
         h = unscaled(c, I)
         for k, (a, b_) in enumerate(zip(h, ref)):
-            if max(a, b_) <= floor: break
+            # two floating-point runs of CG / BiCGStab that differ only in the order of their sums drift apart at a rate set by
+            # the spectrum (observed: x30 per iteration from entry 22 on for n = 250, P = 5 against P = 1, both converging, both
+            # with true residuals): beyond the tenth entry histories are compared only down to 1e-4 of the initial residual
+            if max(a, b_) <= (floor if k < 10 else 1e3 * floor): break
             if abs(a - b_) > 1e-6 * max(a, b_) + 1e-9 * ref[0]:
                 ctx.signal("O", "%s:partition_history" % sigbase(c),
                            "entry %d of the history is %.17g, but %.17g for %s on the same system (P=%d vs P=%d)"
